@@ -155,6 +155,8 @@ fn decode_body(cfg: DevCfg, activation: Activation, seed: u64, it: &mut dyn Iter
                 steps.push(Step::Join(if op & 0x40 != 0 { RxPlan::rx2(r) } else { RxPlan::rx1(r) }));
             }
             5 => steps.push(Step::Silence(1 + (nx().unwrap_or(0) as u16 % 130))),
+            6 if v2 && op & 0x80 != 0 => steps.push(Step::JoinAbp),
+            7 if v2 && class_c && op & 0x40 != 0 => steps.push(Step::SetClassC(op & 0x80 != 0)),
             6 => steps.push(Step::SetDr(drs[nx().unwrap_or(0) as usize % drs.len()])),
             _ => {
                 if class_c {
